@@ -1224,12 +1224,34 @@ func (c *ExecCtx) rootSpecCtx() *ExecCtx {
 // unit's own contract, also inside its func literals inlined at their call
 // sites, but not inside bodies of other functions inlined here.
 func (c *ExecCtx) ownSpec() *FuncSpec {
+	// the unit's root context
+	root := c
+	for root.parent != nil {
+		root = root.parent
+	}
+	if root.spec == nil {
+		return nil
+	}
 	for x := c; x != nil; x = x.parent {
-		if x.inlinedFunc {
-			return nil
-		}
 		if x.spec != nil {
 			return x.spec
+		}
+		if x.lit != nil && x.parent != nil {
+			// a func literal being executed: own code iff it is written
+			// inside the unit's function
+			var lo, hi token.Pos
+			if root.lit != nil {
+				lo, hi = root.lit.Pos(), root.lit.End()
+			} else if root.fn != nil {
+				lo, hi = root.fn.Decl.Pos(), root.fn.Decl.End()
+			}
+			if x.lit.Pos() >= lo && x.lit.End() <= hi {
+				return root.spec
+			}
+			return nil
+		}
+		if x.inlinedFunc {
+			return nil
 		}
 	}
 	return nil
@@ -1256,6 +1278,12 @@ func (c *ExecCtx) runGhostAnchors(st *State, s ast.Stmt, when string) {
 						c.execGhost(st, g, s.Pos())
 					}
 				}
+			}
+		case strings.HasPrefix(an, "inc(") && when == "after":
+			target := strings.TrimSuffix(strings.TrimPrefix(an, "inc("), ")")
+			if ids, ok := s.(*ast.IncDecStmt); ok && exprString(ids.X) == target {
+				g.used = true
+				c.execGhost(st, g, s.Pos())
 			}
 		case strings.HasPrefix(an, "assign(") && when == "after":
 			target := strings.TrimSuffix(strings.TrimPrefix(an, "assign("), ")")
